@@ -106,9 +106,9 @@ class Base(dawgie.Algorithm):
         # one instance per declared input; Task.do loads the stored values into them
         if self._srcs is None:
             self._srcs = []
-            for (mod, cls, val) in self.INPUTS:
+            for (mod, cls, val, kind) in self.INPUTS:
                 m = importlib.import_module(mod)
-                self._srcs.append((getattr(m, 'task'), getattr(m, cls)(), val))
+                self._srcs.append((getattr(m, kind), getattr(m, cls)(), val))
         return self._srcs
     def previous(self):
         out = []
@@ -142,8 +142,46 @@ class Base(dawgie.Algorithm):
         ds.update()
 '''
 
+ANZ_SRC = '''
+class ABase(dawgie.Analyzer):
+    TAG = NAME = None
+    VALUES = INPUTS = ()
+    def __init__(self):
+        dawgie.Analyzer.__init__(self)
+        self._version_ = dawgie.VERSION(1, 0, 0)
+        self._sv = SV(self.VALUES)
+        self._srcs = None
+    def name(self):
+        return self.NAME
+    _sources = Base._sources
+    def traits(self):
+        return Base.previous(self)
+    def state_vectors(self):
+        return [self._sv]
+    def where(self):
+        return dawgie.Distribution.cluster
+    def run(self, aspects):
+        # everything the real Aspect collected: per declared input, per target that has it
+        ins = []
+        for fac, impl, val in self._sources():
+            fsvn = '.'.join([dawgie.util.task_name(fac), impl.name(), 'sv'])
+            for tn in sorted(aspects):
+                if fsvn in aspects[tn]:
+                    for vn in (impl.VALUES if val is None else [val]):
+                        if vn in aspects[tn][fsvn]:
+                            ins.append((impl.TAG, vn, tn, aspects[tn][fsvn][vn].x))
+        outs = []
+        ctl.RUNLOG.append((self.TAG, '__all__', list(ins), None, outs))
+        if ctl.HOOK[0] is not None:
+            ctl.HOOK[0](self.TAG, '__all__')
+        for k, vn in enumerate(self.VALUES):
+            self._sv[vn] = V(ctl.content(self.TAG, k, vn, '__all__', None, ins))
+        outs.extend(self._sv[vn].x for vn in self.VALUES)
+        aspects.ds().update()
+'''
+
 ALG_SRC = '''
-class {cls}(Base):
+class {cls}({base}):
     TAG = {tag!r}
     NAME = {name!r}
     VALUES = {values!r}
@@ -158,6 +196,15 @@ class Bot(dawgie.Task):
 
 def task(prefix, ps_hint=0, runid=-1, target='__none__'):
     return Bot(prefix, ps_hint, runid, target)
+'''
+
+ABOT_SRC = '''
+class ABot(dawgie.Analysis):
+    def list(self):
+        return [{algs}]
+
+def analysis(prefix, ps_hint=0, runid=-1):
+    return ABot(prefix, ps_hint, runid)
 '''
 
 _COUNTER = [0]
@@ -178,15 +225,25 @@ def write_engine(root, pkg, algs):
         tasks.setdefault(a['task'], []).append(a)
     for t, members in tasks.items():
         os.makedirs(os.path.join(root, pkg, t))
-        src = [TASK_SRC.format(pkg=pkg)]
+        src = [TASK_SRC.format(pkg=pkg), ANZ_SRC]
         for a in members:
-            ins = [(f"{pkg}.{algs[j]['task']}", cls_name(algs[j]), val) for j, val in a['inputs']]
+            ins = [(f"{pkg}.{algs[j]['task']}", cls_name(algs[j]), val, kind_of(algs[j])) for j, val in a['inputs']]
             src.append(ALG_SRC.format(cls=cls_name(a), tag=f"{a['task']}.{a['name']}", name=a['name'],
                                       values=list(a['values']), inputs=ins,
-                                      checkpoint=bool(a.get('checkpoint'))))
-        src.append(BOT_SRC.format(algs=', '.join(cls_name(a) + '()' for a in members)))
+                                      checkpoint=bool(a.get('checkpoint')),
+                                      base='Base' if kind_of(a) == 'task' else 'ABase'))
+        tk = [a for a in members if kind_of(a) == 'task']
+        az = [a for a in members if kind_of(a) == 'analysis']
+        if tk:
+            src.append(BOT_SRC.format(algs=', '.join(cls_name(a) + '()' for a in tk)))
+        if az:
+            src.append(ABOT_SRC.format(algs=', '.join(cls_name(a) + '()' for a in az)))
         with open(os.path.join(root, pkg, t, '__init__.py'), 'w') as f:
             f.write('\n'.join(src))
+
+
+def kind_of(a):
+    return a.get('kind', 'task')
 
 
 def tag_of(a):
@@ -203,14 +260,31 @@ def expand_inputs(algs, a):
 
 
 def from_scratch(algs, targets, epochs):
-    """{(target, tag, value): content} of a run of everything in dependency order"""
+    """{(target, tag, value): content} of a run of everything in dependency order; an analysis reads,
+    per declared input, every target that has it (its own results live under '__all__')"""
     out = {}
-    for t in targets:
-        for a in algs:  # inputs refer to earlier algorithms only
-            ins = [(st, vn, out[(t, st, vn)]) for st, vn in expand_inputs(algs, a)]
-            ep = None if a['inputs'] else epochs.get((tag_of(a), t), 0)
+    for a in algs:  # inputs refer to earlier algorithms only
+        if kind_of(a) == 'task':
+            for t in targets:
+                ins = []
+                for j, val in a['inputs']:
+                    src = algs[j]
+                    st = '__all__' if kind_of(src) == 'analysis' else t
+                    for vn in (src['values'] if val is None else [val]):
+                        ins.append((tag_of(src), vn, out[(st, tag_of(src), vn)]))
+                ep = None if a['inputs'] else epochs.get((tag_of(a), t), 0)
+                for k, vn in enumerate(a['values']):
+                    out[(t, tag_of(a), vn)] = content(tag_of(a), k, vn, t, ep, ins)
+        else:
+            ins = []
+            for j, val in a['inputs']:
+                src = algs[j]
+                where = ['__all__'] if kind_of(src) == 'analysis' else sorted(targets)
+                for tn in where:
+                    for vn in (src['values'] if val is None else [val]):
+                        ins.append((tag_of(src), vn, tn, out[(tn, tag_of(src), vn)]))
             for k, vn in enumerate(a['values']):
-                out[(t, tag_of(a), vn)] = content(tag_of(a), k, vn, t, ep, ins)
+                out[('__all__', tag_of(a), vn)] = content(tag_of(a), k, vn, '__all__', None, ins)
     return out
 
 
@@ -395,12 +469,15 @@ class World:
         self.cycle = 0           # > 0: epochs wrap around (changed contents that WERE stored before)
         self.overlaps = 0
         self.roots = {tag_of(a) for a in algs if not a['inputs']}
+        self.kinds = {tag_of(a): kind_of(a) for a in algs}
         self._depth = 0
         self._cur = {}
         self.ctl.HOOK[0] = self._loaded
         self.trace = []          # ops for Model/Reprocess.lean, in the order the real code performed them
         self.obs = []            # what the real code showed after each of them
         self.outside = None      # why this history is outside the model (None: inside)
+        if any(kind_of(a) != 'task' for a in algs):
+            self.outside = 'analyses are not in Model/Reprocess (tasks only)'
         self.nodes = {}
         for r in S.ae.at:
             for n in r.iter():
@@ -433,10 +510,18 @@ class World:
         self.trace.append(op)
         self.obs.append(dict(obs, snap=self.snapshot()))
 
+    def units_of(self, tag, target):
+        """the units of `tag` a new value / request for `target` concerns"""
+        if self.kinds[tag] == 'analysis':
+            return [(tag, '__all__')]
+        if target == '__all__':
+            return [(tag, t) for t in self.targets]
+        return [(tag, target)]
+
     def organize(self, tags, targets):
         for tag in tags:
             for t in targets:
-                self.cause.add((tag, t))
+                self.cause.update(self.units_of(tag, t))
         self.S.organize(list(tags), None, list(targets), 'explicit request')
         self.note(('org', list(tags), list(targets)))
 
@@ -483,7 +568,7 @@ class World:
     def work(self, m):
         """what pl/worker/cluster.py:execute does with a task message, then the farm's `_res`"""
         d, M = self.d, self.M
-        unit = (m.jobid, m.target)
+        unit = (m.jobid, m.target or '__all__')
         ctxt = d.pl.worker.Context(('sim', 0), d.context.git_rev)
         self._cur.pop(unit, None)
         try:
@@ -503,14 +588,14 @@ class World:
         for n in new:
             parts = n.split('.')
             for c in self.consumers.get('.'.join(parts[2:]), []):
-                self.cause.add((c, parts[1]))
+                self.cause.update(self.units_of(c, parts[1]))
         e = self._cur.pop(unit, None)
         if r.success is not True or e is None:
             self.outside = self.outside or f'{m.jobid}[{m.target}] did not succeed with one run() call'
         else:
-            self.note(('write', m.jobid, m.target, list(e[4])), new=list(new))
+            self.note(('write', m.jobid, m.target or '__all__', list(e[4])), new=list(new))
         self.F.Hand._res(r)  # pylint: disable=protected-access
-        self.note(('reply', m.jobid, m.target, m.runid))
+        self.note(('reply', m.jobid, m.target or '__all__', m.runid))
 
     def pending(self):
         return {j.tag: (sorted(j.get('todo')), sorted(j.get('doing'))) for j in self.S.que
@@ -550,10 +635,10 @@ class World:
     def stored(self):
         """{(target, tag, value): latest stored content} through the real Dataset.load path"""
         out = {}
-        for t in self.targets:
-            for a in self.algs:
-                m = importlib.import_module(f"{self.pkg}.{a['task']}")
-                bot = m.task(a['task'], 0, BIG_RUN, t)
+        for a in self.algs:
+            m = importlib.import_module(f"{self.pkg}.{a['task']}")
+            for t in (self.targets if kind_of(a) == 'task' else ['__all__']):
+                bot = m.task(a['task'], 0, BIG_RUN, t) if kind_of(a) == 'task' else m.analysis(a['task'], 0, BIG_RUN)
                 impl = [x for x in bot.list() if x.name() == a['name']][0]
                 self.d.db.connect(impl, bot, t).load()
                 for vn in a['values']:
@@ -612,7 +697,7 @@ def run_scenario(store, sc, seed=0, model=None):
         stats['new_reports'] += sum(len(e[3]) for e in w.executed)
         if model is not None:
             from . import c02_model
-            model.append(c02_model.case_of(w, sc))
+            model.append(c02_model.case_of(w, sc) if w.outside is None else {'outside': w.outside})
         return w.problems, stats
     finally:
         w.close()
@@ -660,7 +745,20 @@ def slow_sibling_shape():
                        ['work', 'demo.Q']]}
 
 
-def gen_scenario(r, small=False):
+def aspect_shape():
+    """tasks R -> B per target, the analysis A over B of every target, and the task C that consumes A:
+    a new value of B on ONE target must re-run A, and A's new value must re-run C on EVERY target"""
+    algs = [
+        {'task': 'demo', 'name': 'R', 'values': ['r'], 'inputs': [], 'checkpoint': False},
+        {'task': 'demo', 'name': 'B', 'values': ['b', 'b2'], 'inputs': [(0, 'r')], 'checkpoint': False},
+        {'task': 'agg', 'name': 'A', 'values': ['a'], 'inputs': [(1, 'b')], 'checkpoint': False, 'kind': 'analysis'},
+        {'task': 'demo', 'name': 'C', 'values': ['c'], 'inputs': [(2, 'a'), (1, 'b2')], 'checkpoint': False},
+    ]
+    return {'algs': algs, 'targets': ['T1', 'T2'],
+            'bumps': [['demo.R', 'T1'], ['demo.R', 'T2'], ['demo.R', 'T1']]}
+
+
+def gen_scenario(r, small=False, aspects=False):
     n = r.choice([3, 4, 4, 5] if small else [3, 4, 5, 6])
     tasks = r.sample(['ta', 'tb'], r.choice([1, 2]))
     algs = []
@@ -684,6 +782,12 @@ def gen_scenario(r, small=False):
         algs[0]['values'] = ['v0', 'v1']
         algs[0]['checkpoint'] = True
         algs[1]['inputs'] = [(0, 'v0')]
+    if aspects:
+        # some algorithms with inputs are analyses (aspects over every target, results under '__all__')
+        for a in algs:
+            if a['inputs'] and r.random() < 0.4:
+                a['kind'] = 'analysis'
+                a['checkpoint'] = False
     targets = r.sample(['T1', 'T2', 'T3'], r.choice([1, 2, 2] if small else [1, 2, 2, 3]))
     roots = [tag_of(a) for a in algs if not a['inputs']]
     bumps = []
@@ -710,6 +814,12 @@ def run(ctx, res):
     r = common.rng(ctx['seed'], 'C02e2e')
     thorough = ctx['tier'] == 'thorough' or ctx.get('escalate')
     scenarios = [seed3_shape()] + [gen_scenario(r, small=not thorough) for _ in range(150 if thorough else 5)]
+    # engines with analyses (monitors only: Model/Reprocess is tasks only)
+    ra = common.rng(ctx['seed'], 'C02e2e-aspects')
+    scenarios += [aspect_shape(), dict(aspect_shape(), overlap=0.7, hold=0.4)]
+    for i in range(60 if thorough else 4):
+        sc = gen_scenario(ra, small=not thorough, aspects=True)
+        scenarios.append(dict(sc, overlap=0.5 if i % 2 else 0, hold=0.4 if i % 3 == 0 else 0))
     for i, sc in enumerate(scenarios):
         problems, stats = run_scenario(store, _norm(sc), ctx['seed'])
         for sig, what in problems:
